@@ -26,6 +26,9 @@ fn main() {
         // aborts the process, an exponential parse never ends)
         std::process::exit(props::c06::parse_probe(&args[2], args[3].parse().unwrap_or(1)));
     }
+    if args[1] == "arith-probe" {
+        std::process::exit(props::c03::arith_probe(&args[2], args[3].parse().unwrap_or(1)));
+    }
     if args[1] == "sh" {
         std::process::exit(dev::main(&args[2..]));
     }
